@@ -1095,8 +1095,28 @@ func c09HTTP(c *ctx, seed uint64) {
 	}
 
 	// (1) request direction, in memory
+	// an Accept header that is already on the request before the dump (every supported type,
+	// wildcards, lists, q-values - from the Accept grammar)
+	var preAccept string
+	if r.Bool() {
+		if r.Bool() {
+			preAccept = vlib.Pick(r, "application/json", "application/cbor", "application/msgpack", "application/yaml", "*/*", "application/*", "text/html", "application/cbor;q=0.9, */*", "text/html, application/msgpack")
+		} else {
+			preAccept = c09GenAccept(r).header
+		}
+	}
+	newReq := func(method string) *http.Request {
+		req := httptest.NewRequest(method, "http://c09.test/x", nil)
+		if preAccept != "" {
+			req.Header.Set("Accept", preAccept)
+		}
+		return req
+	}
 	c.call("c09.http", in, func() {
-		req := httptest.NewRequest(http.MethodPost, "http://c09.test/x", nil)
+		req := newReq(http.MethodPost)
+		if preAccept != "" {
+			b.Count("http_requests_with_preset_accept", 1)
+		}
 		if err := dsd.DumpToHTTPRequest(req, gen(), f); err != nil {
 			bad("http-dump-error", "request", fmt.Sprintf("DumpToHTTPRequest(%s) failed: %v", c09Name(f), err), nil)
 			return
@@ -1126,13 +1146,17 @@ func c09HTTP(c *ctx, seed uint64) {
 	// unsupported formats on the HTTP path must not produce a request that loads to something else
 	c.call("c09.http", in, func() {
 		for _, uf := range []uint8{dsd.AUTO, dsd.RAW, dsd.GenCode} {
-			req := httptest.NewRequest(http.MethodPost, "http://c09.test/x", nil)
+			req := newReq(http.MethodPost)
 			if err := dsd.DumpToHTTPRequest(req, gen(), uf); err == nil {
 				b.Count("http_unsupported_format_accepted", 1)
+				body, _ := io.ReadAll(req.Body)
+				req.Body = io.NopCloser(bytes.NewReader(body))
+				ct := req.Header.Get("Content-Type")
 				got := &c09Val{}
 				if _, err := dsd.LoadFromHTTPRequest(req, got); err != nil || !c09Equal(want, got) {
-					bad("http-load-error", "request-"+c09Name(uf), fmt.Sprintf("DumpToHTTPRequest(%s) succeeded but the request does not load back (err %v)", c09Name(uf), err), nil)
+					bad("http-load-error", "request-"+c09Name(uf), fmt.Sprintf("DumpToHTTPRequest(%s) on a request with Accept %q succeeded with Content-Type %q, but the request does not load back (err %v; body starts %x)", c09Name(uf), preAccept, ct, err, trunc(body, 12)), map[string]any{"preset_accept": preAccept, "content_type": ct})
 				}
+				checkCT("request-"+c09Name(uf), ct, body)
 			} else {
 				b.Count("http_unsupported_format_refused", 1)
 			}
